@@ -61,6 +61,36 @@ fn main() {
         "C20" => optimal_props::c20(&a),
         "export" => probe_export(&a.out, a.seed as u32),
         "editprobe" => edit_props::probe(&a.out),
+        "bigatomic2" => {
+            // the same through the c2d loader (linear): every feature below K-1 as an or-triangle
+            let k = a.seed as u32;
+            let mut lines: Vec<String> = Vec::new();
+            let mut tri: Vec<usize> = Vec::new();
+            for f in 1..(k - 1) { let b = lines.len(); lines.push(format!("L {f}")); lines.push(format!("L -{f}")); lines.push(format!("O {f} 2 {} {}", b, b + 1)); tri.push(b + 2); }
+            let b = lines.len();
+            lines.push(format!("L {}", k - 1)); lines.push(format!("L {}", k)); lines.push(format!("A 2 {} {}", b, b + 1));
+            lines.push(format!("L -{}", k - 1)); lines.push(format!("L -{}", k)); lines.push(format!("A 2 {} {}", b + 3, b + 4));
+            lines.push(format!("O {} 2 {} {}", k - 1, b + 2, b + 5));
+            tri.push(b + 6);
+            lines.push(format!("A {} {}", tri.len(), tri.iter().map(|x| x.to_string()).collect::<Vec<_>>().join(" ")));
+            let header = format!("nnf {} {} {}", lines.len(), 0, k);
+            lines.insert(0, header);
+            let t0 = std::time::Instant::now();
+            let mut d = ddnnife::parser::distribute_building(lines, None, None);
+            println!("loaded {} features, {} nodes in {:?}", d.number_of_variables, d.nodes.len(), t0.elapsed());
+            let r = d.get_atomic_sets(Some(vec![k - 1, k]), &[], false);
+            println!("atomic sets for candidates [{}, {}]: {:?} ({:?})", k - 1, k, r, t0.elapsed());
+        }
+        "bigatomic" => {
+            // debugging aid: `vharness bigatomic --seed K`: features K-1 and K equivalent in a model of K features
+            let k = a.seed as u32;
+            let lines = vec!["o 1 0".to_string(), "t 2 0".to_string(), format!("1 2 {} {} 0", k - 1, k), format!("1 2 -{} -{} 0", k - 1, k)];
+            let t0 = std::time::Instant::now();
+            let mut d = ddnnife::parser::distribute_building(lines, Some(k), None);
+            println!("loaded {} features, {} nodes in {:?}", d.number_of_variables, d.nodes.len(), t0.elapsed());
+            let r = d.get_atomic_sets(Some(vec![k - 1, k]), &[], false);
+            println!("atomic sets for candidates [{}, {}]: {:?} ({:?})", k - 1, k, r, t0.elapsed());
+        }
         "streamprobe" => stream_props::probe(&a.out),
         other => { eprintln!("unknown property {other}"); std::process::exit(2); }
     }
